@@ -416,7 +416,7 @@ def instantiate(formulas, rounds: int = 2, heavy: bool = True, quant=None):
                 for y in range(x + 1, len(mll)):
                     (i, t1), (j, t2) = mll[x], mll[y]
                     emit(('mm', i, j), lambda t1=t1, t2=t2: _ax_mm(t1, t2))
-    if quant:
+    if quant and quant != 'skip':
         axioms = axioms + quantified_pairwise()
         names = names + ['Q'] * len(quantified_pairwise())
     return axioms, names
